@@ -660,26 +660,30 @@ func ruleRC1(w *World, r *Report) {
 		return
 	}
 	k, _ := constInt(thr.Y)
+	// the chain stores must be guarded by it; the arm they sit on gives the direction
+	guarded, chainPol := false, true
+	eachInstr(cas, func(in ssa.Instruction) {
+		if _, _, ok := isStoreToField(in, "rootNodeLoc", "chainedRootNodeLoc"); ok {
+			for _, f := range factsAt(in.Block()) {
+				if f.Cond == ssa.Value(thr) {
+					guarded, chainPol = true, f.Pol
+				}
+			}
+		}
+	})
 	// effective threshold: chain iff refs >= minChain
+	op := thr.Op
+	if !chainPol {
+		op = map[token.Token]token.Token{token.GTR: token.LEQ, token.GEQ: token.LSS, token.LSS: token.GEQ, token.LEQ: token.GTR, token.EQL: token.NEQ, token.NEQ: token.EQL}[op]
+	}
 	minChain := int64(-1)
-	switch thr.Op {
+	switch op {
 	case token.GTR:
 		minChain = k + 1
 	case token.GEQ:
 		minChain = k
 	}
-	// the chain stores must be guarded by it
-	guarded := false
-	eachInstr(cas, func(in ssa.Instruction) {
-		if _, _, ok := isStoreToField(in, "rootNodeLoc", "chainedRootNodeLoc"); ok {
-			for _, g := range guardsOf(in.Block()) {
-				if c, pol := g.atom(); c == ssa.Value(thr) && pol {
-					guarded = true
-				}
-			}
-		}
-	})
-	r.Check(guarded, rule, "(*Collection).rootCAS › chain guarded by the threshold", w.InstrPos(thr), "the chain stores are dominated by the true arm of the refs test", "the stores that chain prev to the new version are not guarded by the refs test")
+	r.Check(guarded, rule, "(*Collection).rootCAS › chain guarded by the threshold", w.InstrPos(thr), "the chain stores are dominated by one arm of the refs test", "the stores that chain prev to the new version are not guarded by the refs test")
 	// … and by nothing else: whenever somebody else still holds prev, the new version must be
 	// kept alive behind it, whatever the new version looks like (an empty tree still owns
 	// the nodes it superseded through its reclaimLater slots)
